@@ -1,11 +1,12 @@
 """C07 Eager scheduler wastes no cycle (specs/core/TxnCore.tla, TxnCoreTrace.tla, TxnCoreMC.tla)."""
 from vlib.core import core_check
 
-OPTS = [dict(), dict(max_m=2, max_t=4, p_nonexcl=0.2), dict(p_rel=1.0), dict(p_struct=0.7, p_nonexcl=0.4)]
+OPTS = [dict(), dict(max_m=2, max_t=4, p_nonexcl=0.2), dict(p_rel=1.0), dict(p_struct=0.7, p_nonexcl=0.4),
+        dict(p_chain=1.0, max_t=4, max_m=3, p_rel=0.3, p_struct=0.25, p_enable=0.15)]
 
 
 def run(rep):
-    core_check(rep, "C07", [dict(o) for o in OPTS], 64, 1600, nontrivial_key="impl_cycles_with_ready_not_run")
+    core_check(rep, "C07", [dict(o) for o in OPTS], 80, 2000, nontrivial_key="impl_cycles_with_ready_not_run")
     rep.coverage["rule"] = ("random designs from vlib/coregen.py's grammar built with the real API, every valuation of the "
                             "control inputs (or random ones when there are many), both directions bound by TxnCoreTrace; "
                             "clause NoWastedCycle with the specification's conflict relation; distinct_nontrivial = cycles in which a ready+runnable transaction did not run")
